@@ -263,6 +263,9 @@ func c11Command(r *core.Rand, doc *ref.Doc, env MEnv) MCmd {
 			c.Summary = []string{"coffee"}
 		}
 	}
+	if (c.Kind == "start" || c.Kind == "stop" || c.Kind == "switch") && c.Round == 0 && r.Chance(1, 3) {
+		c.Round = r.PickInt(5, 15, 30, 60) // also together with an explicit --time (which is taken as typed)
+	}
 	return c
 }
 
